@@ -9,10 +9,10 @@ From RecordUpdate Require Import RecordSet.
 Import RecordSetNotations.
 Open Scope Z_scope.
 
-(* events that are neither a logger delivery, nor a ground-truth record, nor an agent callback *)
+(* events that are neither a logger delivery, nor a ground-truth record, nor an agent callback, nor a market-step record *)
 Definition obs_event (e : event) : Prop :=
   match e with
-  | EvConsult _ _ | EvProbe _ _ _ _ _ _ | EvStep _ _ => True
+  | EvConsult _ _ | EvProbe _ _ _ _ _ _ => True
   | _ => False
   end.
 (* ... callbacks included: the events that carry no record to the logger and no ground truth *)
@@ -108,6 +108,11 @@ Proof.
   apply round_ctx_guard; [intros; apply round_ctx_callback; auto|].
   apply round_ctx_guard; [intros; apply round_ctx_callback; auto|]. exact H.
 Qed.
+
+Lemma step_from_quiet (P : sim -> Prop) :
+  (forall s e, quiet_event e -> P s -> P (emit s e)) ->
+  forall s kind mkid x, find_mkt mkid (s_markets s) = Some x -> P s -> P (emit s (ev_step s kind x)).
+Proof. intros H s kind mkid x _ Hs. apply H; auto. exact I. Qed.
 
 (* a callback either emits one callback event or (unknown agent / market) fails the run *)
 Lemma callback_from_emit (P : sim -> Prop) :
@@ -296,6 +301,7 @@ Section Upper.
 Variable P : sim -> Prop.
 Hypothesis H_fail : forall s e, P s -> P (fail s e).
 Hypothesis H_emit : forall s e, obs_event e -> P s -> P (emit s e).
+Hypothesis H_step : forall s kind mkid x, find_mkt mkid (s_markets s) = Some x -> P s -> P (emit s (ev_step s kind x)).
 Hypothesis H_boundary : forall s e, boundary_event e -> P s -> P (flush (write s e)).
 Hypothesis H_tick_all : forall s, P s -> P (tick_all s).
 Hypothesis H_pop_perm : forall s, P s -> P (fst (pop_perm s)).
@@ -359,13 +365,13 @@ Lemma step_begin_pres s mkid : P s -> P (step_begin s mkid).
 Proof.
   intros H. unfold step_begin. destruct (negb (ok s)); auto.
   pose proof (fire_market_pres s true mkid H) as H1. destruct (negb (ok (fire_market s true mkid))); auto.
-  destruct (find_mkt mkid (s_markets (fire_market s true mkid))); auto. apply H_emit; simpl; auto.
+  destruct (find_mkt mkid (s_markets (fire_market s true mkid))) eqn:Fx; auto. eapply H_step; eauto.
 Qed.
 
 Lemma step_end_pres s mkid : P s -> P (step_end s mkid).
 Proof.
   intros H. unfold step_end. destruct (negb (ok s)); auto. apply fire_market_pres.
-  destruct (find_mkt mkid (s_markets s)); auto. apply H_emit; simpl; auto.
+  destruct (find_mkt mkid (s_markets s)) eqn:Fx; auto. eapply H_step; eauto.
 Qed.
 
 Lemma one_step_pres s : P s -> P (one_step s).
@@ -422,6 +428,7 @@ Variable P : sim -> Prop.
 Hypothesis H_fail : forall s e, P s -> P (fail s e).
 Hypothesis H_emit : forall s e, obs_event e -> P s -> P (emit s e).
 Hypothesis H_callback : forall s aid kind r mkid, P s -> P (callback s aid kind r mkid).
+Hypothesis H_step : forall s kind mkid x, find_mkt mkid (s_markets s) = Some x -> P s -> P (emit s (ev_step s kind x)).
 Hypothesis H_boundary : forall s e, boundary_event e -> P s -> P (flush (write s e)).
 Hypothesis H_accept_order : forall s mkid x ag mk buy p v ttlv m' rc tag,
   find_mkt mkid (s_markets s) = Some x -> add_order (mk_m x) ag mk buy p v ttlv = Ok (m', rc) ->
@@ -455,7 +462,7 @@ Proof. apply (update_markets_up P H_fail H_pop_perm H_pop_draw H_consult HR). Qe
 
 Theorem run_pres c tape batches funds : P (init_sim c tape batches funds) -> P (run c tape batches funds).
 Proof.
-  apply (run_up P H_fail H_emit H_boundary H_tick_all H_pop_perm H_pop_draw H_consult H_halt_before H_shock H_set_cur
+  apply (run_up P H_fail H_emit H_step H_boundary H_tick_all H_pop_perm H_pop_draw H_consult H_halt_before H_shock H_set_cur
            H_begin_iteration HR).
 Qed.
 End Whole.
